@@ -123,6 +123,16 @@ def run(cx):
         for arm, reg in regs.items():
             if not any(hf.blocks[b].term.op == "call" and feeds_digest(hf, hf.blocks[b].term) for b in reg):
                 ok = False
+    # the id is the hex rendering of the WHOLE digest: hex::encode (or the digest's own LowerHex), never an integer
+    # made from the digest bytes (`{:x}` of a u128 drops leading zeros, so 1 id in 16 is not the hash)
+    hcone = cone_fns(fb, owner_cone(fb, [hf.id], crates={"artifact_content"}))
+    enc = [t for g_ in hcone for t in g_.calls() if re.search(r"^hex::encode$|hex::encode_upper$|base16ct::", t.callee or "")
+           or (re.search(r"fmt::rt::Argument::<'_>::new_lower_hex$", t.callee or "") and "GenericArray" in " ".join(t.j.get("atys", [])))]
+    ints = [t for g_ in hcone for t in g_.calls() if re.search(r"::from_(be|le|ne)_bytes$|::from_str_radix$", t.callee or "")]
+    cx.ob("R26.hash-what-you-store", hf.id + "|id-is-hex-of-whole-digest", bool(enc) and not ints,
+          "the id is not produced by hex-encoding the digest bytes (%s): rendering the digest as an integer loses leading "
+          "zeros, so some ids are not the configured hash of their document" % (
+              [(t.callee or "").split("::")[-1] for t in ints] or "no hex::encode found"), hf.loc())
     cx.ob("R26.hash-what-you-store", hf.id + "|digest-of-the-data", ok,
           "hash() must feed its data argument to the digest of every algorithm variant (no wildcard)", hf.loc())
     # ---- R26.format-is-whitespace ---------------------------------------------------------------------
